@@ -176,6 +176,9 @@ impl<'a> CompModel<'a> {
                 }
             }
             let _ = pos;
+            if fp.out_len == usize::MAX {
+                continue;
+            }
             let tail_end = if self.cfg.zlib { s.out.len() - 4 } else { s.out.len() };
             let mut ro = Opts::raw();
             ro.keep_tokens = false;
@@ -343,6 +346,13 @@ impl<'a> Model for CompModel<'a> {
             if flush_i == F_FULL {
                 s.full_points.push(FlushPoint { kind: flush_i, out_len: s.out.len(), in_len: s.ip });
             }
+        } else if flush_i == F_FULL && s.prev_room_left && consumed == k && s.ip <= 20_000 && self.entry != Entry::Callback {
+            // a Full flush whose own output did not fit the caller's buffer: with at most 20000 bytes
+            // consumed since the start no block was cut before, so this call did perform the flush;
+            // the history cut must hold at this input offset (standalone decoding is not checked:
+            // the byte offset of the cut is only known once the marker has been drained)
+            self.count("full_flush_points_unqualified");
+            s.full_points.push(FlushPoint { kind: 99, out_len: usize::MAX, in_len: s.ip });
         }
         s.prev_room_left = room_left;
         s.idle = if progressed { 0 } else { s.idle + 1 };
